@@ -154,15 +154,18 @@ def impl_checks(ctx):
         fac = [float(gas.b_factor_DAK(T, q, tpc, ppc, 60, 14.7)) - float(oil.db_o_dgor_Standing(T, api, gg, oil.solution_gor_Standing(T, q, api, gg, rsi))) for q in grid]
         for q in {grid[int(np.argmin(fac))], grid[int(rng.integers(0, len(grid)))]}:
             q = float(q)
-            got = float(oil.oil_compressibility_Standing(T, q, api, gg, rsi, tpc, ppc))
+            # standard conditions: the defaults, or another legitimate base (14.65 Texas, 14.696 = 1 atm, 14.73 AGA, 15.025 Louisiana)
+            tsc, psc = [(60, 14.7), (60.0, 14.65), (59.0, 14.696), (68.0, 14.73), (60.0, 15.025)][k % 5]
+            got = float(oil.oil_compressibility_Standing(T, q, api, gg, rsi, tpc, ppc, tsc, psc))
             rs = oil.solution_gor_Standing(T, q, api, gg, rsi)
-            f_ = float(gas.b_factor_DAK(T, q, tpc, ppc, 60, 14.7)) - float(oil.db_o_dgor_Standing(T, api, gg, rs))
+            f_ = float(gas.b_factor_DAK(T, q, tpc, ppc, tsc, psc)) - float(oil.db_o_dgor_Standing(T, api, gg, rs))
             want = float(f_ * oil.dgor_dpressure_Standing(T, q, api, gg, rsi) / oil.b_o_bubblepoint_Standing(T, api, gg, rsi))
             ev += 1
             neg += f_ < 0
             if not dom.relclose(got, want, 1e-9, 1e-300):
                 bad("oil_compressibility_Standing is not its defining combination",
-                    dict(T=T, p=q, api=api, gg=gg, Rsi=rsi, Tpc=tpc, Ppc=ppc, pb=pb, factor_Bg_minus_dBo_dRs=f_), got, want)
+                    dict(T=T, p=q, api=api, gg=gg, Rsi=rsi, Tpc=tpc, Ppc=ppc, pb=pb, temperature_standard=tsc, pressure_standard=psc,
+                         factor_Bg_minus_dBo_dRs=f_), got, want)
     kinds["assembly points with negative (B_g - dB_o/dR_s)"] = int(neg)
     ctx.cov["evaluations"] = ctx.cov.get("evaluations", 0) + ev
     ctx.cov["distinct_nontrivial"] = ev
